@@ -100,6 +100,7 @@ func WorkerMain(args []string) int {
 		os.Chdir(scratch)
 	}
 	if ph.Unpriv {
+		os.Chown(env.Scratch, 65534, 65534)
 		if err := syscall.Setgroups([]int{}); err != nil {
 			fmt.Fprintln(os.Stderr, "setgroups:", err)
 			return 3
